@@ -87,8 +87,25 @@ func checkC12(c *Case, st *Stats) string {
 			}
 		}
 	}
-	if !reflect.DeepEqual(plain.rec.Calls, acc.rec.Calls) && !(len(plain.rec.Calls) == 0 && len(acc.rec.Calls) == 0) {
+	sameLogs := len(plain.rec.Calls) == len(acc.rec.Calls)
+	for i := 0; sameLogs && i < len(plain.rec.Calls); i++ {
+		a, b := plain.rec.Calls[i], acc.rec.Calls[i]
+		sameLogs = a.Fn == b.Fn && a.Err == b.Err && deepSame(a.Arg, b.Arg) // deepSame: NaN is the same argument as NaN
+	}
+	if !sameLogs {
 		return fmt.Sprintf("function call logs differ between the modes:\n   plain    %s\n   accessor %s", callLogString(plain.rec), callLogString(acc.rec))
+	}
+	if !c.AST.HasFunc() {
+		bad := BuildConfigOrder(nil, true, true, true)
+		_, _ = jsonpath.Parse(poisonPaths[len(c.Path)%len(poisonPaths)], bad)
+		noteParse(poisonPaths[len(c.Path)%len(poisonPaths)], true, true)
+		got, err := jsonpath.Retrieve(c.Path, c.Document())
+		noteParse(c.Path, false, false)
+		st.Eval(1)
+		st.Class("config-less call after a failed accessor-mode parse")
+		if (err == nil) != (plain.err == nil) || (err == nil && !reflect.DeepEqual(got, plain.got)) {
+			return fmt.Sprintf("a call without Config right after a failed accessor-mode Parse returns (%s, %v), plain mode gives (%s, %v)", JSONString(got), err, JSONString(plain.got), plain.err)
+		}
 	}
 	classifyPath(st, c.AST)
 	funcAfterGroup := false
